@@ -55,6 +55,8 @@ func main() {
 			modes = os.Args[5:]
 		}
 		err = runL1(seed, n, dir, modes, true, false)
+	case "l1s":
+		err = runL1S(seed, n, dir)
 	case "l2":
 		prof := "single"
 		if len(os.Args) > 5 {
